@@ -22,7 +22,8 @@ THEOREMS = ["C03_zone_getters_valid", "C03_zone_getters_refuse", "C03_getter_dom
             "C03_set_zone_mode_valid", "C03_set_dhw_mode_valid", "C03_set_dhw_mode_countdown_refuted", "C03_set_dhw_mode_temporary_without_until_refuted",
             "C03_set_dhw_mode_idx_refuted", "C03_set_system_mode_valid", "C03_set_system_time_valid", "C03_set_zone_config_valid", "C03_mode_cmds_registered",
             "C03_set_dhw_params_valid", "C03_set_mix_valve_params_valid", "C03_put_temp_valid",
-            "C03_set_tpi_params_valid", "C03_set_tpi_params_unchecked_refuted", "C03_put_weather_temp_valid"]
+            "C03_set_tpi_params_valid", "C03_set_tpi_params_unchecked_refuted", "C03_put_weather_temp_valid",
+            "C03_put_co2_level_valid", "C03_put_co2_level_roundtrip", "C03_put_indoor_humidity_valid"]
 
 CTL = "01:145038"
 
@@ -462,6 +463,10 @@ def param_commands(ctx: Ctx, built: bool, thorough: bool) -> None:
         cases.append(("st", (t,), f"both V_I 0x30C9 shtemp parser_temp_tail (Some (put_temp_payload {oz(w)}))"))
         cases.append(("dt", (t,), f"both V_I 0x1260 shtemp parser_temp_tail (Some (put_temp_payload {oz(w)}))"))
         cases.append(("wt", (t,), f"both V_I 0x0002 sh0002 parser_0002 (Some (put_weather_payload {oz(w)}))"))
+    for n in [None, 0, 1, 400, 0x7FFE, 0x7FFF, 0x8000, 0x8001, 0xFFFF] + [rng.randrange(0, 0x7FFF) for _ in range(30 if thorough else 10)]:
+        cases.append(("co", (n,), f"both V_I 0x1298 shco2 parser_1298 (Some (put_co2_payload {oz(n)}))"))
+    for b in [None, 0, 1, 50, 99, 100] + [rng.randrange(0, 101) for _ in range(20 if thorough else 6)]:
+        cases.append(("hu", (b,), f"both V_I 0x12A0 shhum parser_12a0_short (Some (put_humidity_payload {oz(b)}))"))
     for dom, cyc, on, off, pbw in itertools.product([0, 0xFC, 1, 0xF9], [1, 3, 12, 13, 0], [1, 5, 30, 31, 0], [0, 5, 15, 16], [None, 150, 300, 149, 301, rng.randrange(151, 300)]):
         cases.append(("tp", (dom, cyc, on, off, pbw), f"both V_W 0x1100 sh1100 parser_1100 (set_tpi_params {dom} {cyc} {on} {off} {oz(pbw)})"))
     tag = {"max_flow_setpoint": 0xC8, "min_flow_setpoint": 0xC9, "valve_run_time": 0xCA, "pump_run_time": 0xCB, "boolean_cc": 0xCC, "unknown_20": 0x20, "unknown_21": 0x21}
@@ -476,6 +481,10 @@ def param_commands(ctx: Ctx, built: bool, thorough: bool) -> None:
                 name, cmd = "set_tpi_params", Command.set_tpi_params(CTL, a[0], cycle_rate=a[1], min_on_time=a[2], min_off_time=a[3], proportional_band_width=None if a[4] is None else a[4] / 100)
             elif kind == "wt":
                 name, cmd = "put_weather_temp", Command.put_weather_temp("17:123456", a[0])
+            elif kind == "co":
+                name, cmd = "put_co2_level", Command.put_co2_level("37:123456", a[0])
+            elif kind == "hu":
+                name, cmd = "put_indoor_humidity", Command.put_indoor_humidity("37:123456", None if a[0] is None else a[0] / 100)
             elif kind == "st":
                 name, cmd = "put_sensor_temp", Command.put_sensor_temp("34:123456", a[0])
             else:
@@ -496,6 +505,12 @@ def param_commands(ctx: Ctx, built: bool, thorough: bool) -> None:
             elif kind == "mv":
                 dec = [1] + [x for k, v in p.items() if k in tag for x in (tag[k], v)]
                 asked = [1, 0xC8, a[1], 0xC9, a[2], 0xCA, a[3], 0xCB, a[4], 0xCC, 1]
+            elif kind == "co":      # no sensor / a sensor fault / the level; what is ASKED for is the level (whatever four digits can spell is outside the oracle: the theorem says what comes back)
+                dec = [1, 0] if p.get("co2_level", 0) is None else [1, 1] if "co2_level" not in p else [1, 2, p["co2_level"]]
+                asked = [1, 0] if a[0] is None else [1, 2, a[0]] if a[0] < 0x7FFF else dec
+            elif kind == "hu":
+                dec = [1, 0] if p.get("indoor_humidity", 0) is None else [1, 1] if "indoor_humidity" not in p else [1, 2, round(p["indoor_humidity"] * 100)]
+                asked = [1, 0] if a[0] is None else [1, 2, a[0]]
             else:
                 dec = [1] + tz(p["temperature"])
                 asked = [1] + tz(a[0])
@@ -516,6 +531,8 @@ def param_commands(ctx: Ctx, built: bool, thorough: bool) -> None:
         "Definition sh10a0 (r : result dhwp) : list Z := match r with Raise _ => [9] | Ok z => [1] ++ tz (dp_setpoint z) ++ [dp_overrun z] ++ tz (dp_differential z) end.\n"
         "Definition sh1030 (r : result (list (Z * Z))) : list Z := match r with Raise _ => [9] | Ok l => 1 :: flat_map (fun x => [fst x; snd x]) l end.\n"
         "Definition shtemp (r : result tempv) : list Z := match r with Raise _ => [9] | Ok t => 1 :: tz t end.\n"
+        "Definition shco2 (r : result co2v) : list Z := match r with Raise _ => [9] | Ok Co2None => [1; 0] | Ok Co2Fault => [1; 1] | Ok (Co2Level n) => [1; 2; n] end.\n"
+        "Definition shhum (r : result humv) : list Z := match r with Raise _ => [9] | Ok HumNone => [1; 0] | Ok HumFault => [1; 1] | Ok (HumPct b) => [1; 2; b] end.\n"
         "Definition sh0002 (r : result (tempv * str)) : list Z := match r with Raise _ => [9] | Ok t => 1 :: tz (fst t) end.\n"
         "Definition sh1100 (r : result tpi) : list Z := match r with Raise _ => [9] | Ok z => [1; tp_cycle z; tp_on4 z; tp_off4 z] ++ tz (tp_pbw z) ++ [match tp_domain z with Some _ => 1 | None => 0 end] end.\n"
         "Definition both {R} (verb code : Z) (sh : result R -> list Z) (parse : str -> result R) (o : option str) : list (list Z) := match o with None => [[0]] | Some p => [s2z p; if payload_ok verb code p then sh (parse p) else [9]] end.\n")
@@ -537,7 +554,7 @@ def param_commands(ctx: Ctx, built: bool, thorough: bool) -> None:
             if m_pl != pl or m_dec != dec:
                 bad.append(f"{kind}{a}: model payload {m_pl} decoded {m_dec}; implementation payload {pl} decoded {dec}")
     ctx.obligation("correspondence:param-commands", not bad, "correspondence", f"{len(bad)} of {total} differ; first: {bad[0][:600]}" if bad else
-                   f"{total} argument combinations of set_dhw_params / set_mix_valve_params / set_tpi_params / put_sensor_temp / put_dhw_temp: payload or refusal, the decoder's verdict and values agree")
+                   f"{total} argument combinations of set_dhw_params / set_mix_valve_params / set_tpi_params / put_sensor_temp / put_dhw_temp / put_weather_temp / put_co2_level / put_indoor_humidity: payload or refusal, the decoder's verdict and values agree")
 
 
 def bind_commands(ctx: Ctx) -> None:
